@@ -143,6 +143,18 @@ pub fn gen_program(p: &Pos, legal: &[Mv], t: &mut Tape) -> Vec<Op> {
             return;
         }
         match t.below(8) {
+            0 | 1 | 2 if t.chance(1, 6) => {
+                // a move that is not there to be removed (a killer or hash move from another
+                // position): pseudo-legal but illegal, or a legal move's source with another square
+                let illegal: Vec<Mv> = p.pseudo_moves().into_iter().filter(|m| !legal.contains(m)).collect();
+                let m = if !illegal.is_empty() && t.chance(1, 2) {
+                    illegal[t.below(illegal.len())]
+                } else {
+                    let l = legal[t.below(legal.len())];
+                    Mv::new(l.from, t.below(64) as u8, if t.chance(1, 8) { Some(Kind::Q) } else { None })
+                };
+                ops.push(Op::RemoveMove(m));
+            }
             0 | 1 | 2 => ops.push(Op::RemoveMove(legal[t.below(legal.len())])),
             3 => {
                 // forced coverage: en-passant captures and promotions
@@ -236,11 +248,16 @@ pub fn check_program(ctx: &mut Ctx, start: &Pos, moves: &[Mv], ops: &[Op]) -> Re
                     continue; // only moves still to come are excluded "beforehand"
                 }
                 let _ = mg.remove_move(bridge::mv(*m));
+                // the other moves with this source and destination (promotion pieces) may go with it,
+                // whether or not the move itself was there
+                for o in legal.iter().filter(|o| o.from == m.from && o.to == m.to && *o != m) {
+                    may.insert(*o);
+                }
+                if !legal.contains(m) {
+                    ctx.class("remove:move-that-is-not-legal");
+                }
                 if legal.contains(m) {
                     removed.insert(*m);
-                    for o in legal.iter().filter(|o| o.from == m.from && o.to == m.to && *o != m) {
-                        may.insert(*o);
-                    }
                     if m.promo.is_some() || p.is_ep_capture(*m) || legal.iter().filter(|o| o.from == m.from).count() == 1 {
                         special_removal = true;
                         ctx.class(if p.is_ep_capture(*m) { "remove:en-passant-capture" } else if m.promo.is_some() { "remove:promotion" } else { "remove:only-move-of-a-piece" });
